@@ -17,7 +17,7 @@ from harness.common import Failure, cbool, clist, cnat, copt, cz, exn_name
 PROP = "C12"
 INT_DTYPES = ["int8", "int16", "int32", "int64", "uint8", "uint16", "uint32", "uint64"]
 RULE = ("bounded-exhaustive: all id arrays of length<=4 and all edge arrays of length<=3 over alphabet {0,1,2} x directedness; "
-        "random id/edge arrays of every integer dtype with values at the dtype limits; radius arrays (1-D/2-D, int/float, masks); "
+        "random id/edge arrays of every integer dtype with values at the dtype limits; a block of 64-bit ids that collide after a float64 detour; radius arrays (1-D/2-D, int/float, masks); "
         "integer covariance stacks for 1..3 spatial axes, symmetric-biased, singular ones excluded ('clearly inside/outside'); "
         "all 2^5 configs x declared/undeclared properties; non-trivial = non-empty input; distinct by structural input")
 EXHAUSTIVE_BLOCKS = ["validate_unique_node_ids: all arrays of length<=4 over {0,1,2}",
@@ -115,6 +115,19 @@ def generate(rng: random.Random, tier: str):
                    "ids": ids, "edges": edges, "axes": [], "sphere": None, "ellipsoid": None, "track": None}
         else:
             yield {"kind": k, "dt": dt, "ids": ids, "edges": edges}
+    # 64-bit ids that differ but are equal after a detour through float64 (adjacent integers above 2^53, at the dtype limits)
+    for dt in ("int64", "uint64"):
+        info = np.iinfo(dt)
+        bases = [2**53, 2**53 + 2, 2**62, info.max - 1, info.max - 3] + ([info.min, -2**53 - 1] if info.min < 0 else [2**63, 2**63 - 1])
+        for b in bases:
+            a, a2, c0 = b, b + 1, rng.choice([0, 1, 7, b - 5 if b > 10 else 9])
+            for edges in ([[a, c0], [a2, c0]], [[c0, a], [c0, a2]], [[a, a2], [a2, a]], [[a, a2], [c0, a]], [[a, c0], [a2, c0], [a, c0]]):
+                ids = [a, a2, c0]
+                for k in ("repeated", "nodes_for_edges", "unique", "self"):
+                    yield {"kind": k, "dt": dt, "ids": ids if k != "unique" else [a, a2, c0, a2][: rng.choice([3, 4])], "edges": edges}
+                for directed in (True, False):
+                    yield {"kind": "data", "cfg": [True, False, False, False, False], "directed": directed, "dt": dt,
+                           "ids": ids if rng.random() < 0.8 else [a, c0], "edges": edges, "axes": [], "sphere": None, "ellipsoid": None, "track": None}
     # larger, sparse arrays: numpy switches algorithms (sort / table / loop paths of isin, unique) with size and value range
     for _ in range(160 if tier == "quick" else 2000):
         dt = rng.choice(INT_DTYPES)
